@@ -17,7 +17,8 @@
 //   bits   : outcome of the op's mutating database calls in order (TxnBegin, WriteKey, TxnCommit, ...): 1 ok, 0 fails
 //   output : per op  A<slot>.<idx> (address handed out: resolved through an independently derived address table that is
 //            checked to be injective)  R<slot>.<idx> (reserved)  K<slot>.<idx> (kept = handed out)  r  T0/T1  U<n>  L
-//            Eout/Eerr (error result)  X (exception);  then  | <next>/<range_end>/<max_cached>/<db next>/<db range_end> per slot
+//            (suffix ! = the wallet does not watch that address, #n = mutating database calls made, address book records excluded)
+//            Eout/Ewr/Eerr (error result)  X (exception);  then  | <next>/<range_end>/<max_cached>/<db next>/<db range_end> per slot
 #include <drv_common.h>
 #include <algorithm>
 #include <deque>
@@ -49,7 +50,7 @@ using namespace wallet;
 using namespace wdb;
 
 namespace {
-constexpr int MAXI = 400;
+constexpr int MAXI = 64;
 
 std::vector<std::string> split(const std::string& s, char sep)
 {
@@ -132,15 +133,19 @@ struct Run {
         scripts = std::move(scr);
     }
 
-    std::string token(const CTxDestination& d) const
+    std::string token(const CTxDestination& d, bool with_watch = true) const
     {
         auto it = by_addr.find(EncodeDestination(d));
         if (it == by_addr.end()) return "?";
-        return std::to_string(it->second.first) + "." + std::to_string(it->second.second);
+        // "!" = the wallet does not consider the address its own (script not in m_map_script_pub_keys)
+        const bool mine = WITH_LOCK(w->cs_wallet, return w->IsMine(d));
+        return std::to_string(it->second.first) + "." + std::to_string(it->second.second) + (with_watch && !mine ? "!" : "");
     }
     static std::string err(const bilingual_str& e)
     {
-        return e.original.find("Keypool ran out") != std::string::npos ? "Eout" : "Eerr";
+        if (e.original.find("Keypool ran out") != std::string::npos) return "Eout";
+        if (e.original.find("Failed to write the descriptor") != std::string::npos) return "Ewr";
+        return "Eerr";
     }
     std::string cnt() const { return "#" + std::to_string(ctl->counted); }
     void arm(const std::string& bits)
@@ -203,7 +208,7 @@ struct Run {
             if (it == res.end()) return "N";
             std::string out;
             if (o == "keep") {
-                out = "K" + token(it->second->address);
+                out = "K" + token(it->second->address, false);
                 it->second->KeepDestination();
             } else {
                 arm(bits(2));
